@@ -11,7 +11,7 @@ TEXT = {
          "Panics inside dependency crates, allocation failure and stack depth are not modelled; partial in that respect."),
  "C04": ("decode_reencode (consumed bytes are reproduced exactly), encode determines the fields, Valid r -> decode(encode r) = r for bytes, text and JSON; with C05 this covers every record handed out. Tie: dec family (re-encoding vs consumed input) and hist/acc families (bytes/text/JSON round trips after every step, model re-decode of the implementation's encoding).",
          "The serde_json string layer (quoting, escapes, \\u sequences, surrogates) is modelled and proved to round-trip; serde_json itself is a dependency, modelled not verified."),
- "C05": ("Invariant by induction over arbitrary histories: build_valid, decode_valid, step_valid, run_valid for any lawful key type and any signing oracle whose answers verify (SigOK); re-keying theorem; builder reuse (build_again_same_key / other_key, build_reused_is_valid); instantiated for the four concrete schemes (run_valid_k256/libsecp/ed/comb) whose lawfulness is proved. Tie: hist/size/acc/eq families for all built-in key types plus a toy scheme with variable-length signatures; SigOK is evaluated on every concrete signature with the model's own crypto.",
+ "C05": ("Invariant by induction over arbitrary histories: build_valid, decode_valid, step_valid, run_valid for any lawful key type and any signing oracle whose answers verify (SigOK); re-keying theorem; builder reuse (build_again_same_key / other_key, build_reused_is_valid); instantiated for the four concrete schemes (run_valid_k256/libsecp/ed/comb) whose lawfulness is proved; monitor soundness (C05_monitor_record_sound, C05_monitor_checkRecord): the per-record predicates the driver evaluates cannot fire on a record that is Valid in the model. Tie: hist/size/acc/eq families for all built-in key types plus a toy scheme with variable-length signatures; SigOK is evaluated on every concrete signature with the model's own crypto.",
          "Scheme laws (pub_inj, key_not_reserved, pub_local) are proved for the toy scheme and for the byte-level models of the four real key types; that the real crates compute those encodings is validated by the tie."),
  "C06": ("step_error_unchanged: for every record, operation and oracle answer (including signer failure and signatures of any length) an error leaves the record equal to the one before. Tie: hist/size families with fault-injecting keys and the toy scheme; before/after comparison of all fields and the encoding on the implementation.",
          "The model mirrors the clone-and-commit structure of the code; the tie is what detects in-place mutation."),
